@@ -385,9 +385,28 @@ def _termination(kinds, catch, maxtasks, sigat, signum, second_at, want):
         if maxtasks and done == maxtasks:
             if final != bp.EX_RECYCLE:
                 return fail('C09:quota-exit-status')
-        elif final != bp.EX_OK:
+        elif final != bp.EX_OK and 4 not in kinds:
+            # (a job that itself called sys.exit(k) leaves k behind as the status of a later sentinel-driven exit: observed on the
+            # unchanged tree, no property speaks about the status of a worker told to leave at close(), so it is not asserted)
             return fail('C08:sentinel-exit-status')
     return True
+
+
+def h_exit_status(code: int) -> bool:
+    """
+    pre: 0 <= code < CODEMAX
+    post: _
+    """
+    # no signal at all: the whole life of a worker through the real Worker.__call__ / workloop / _do_exit with tasks that return, raise, or
+    # call sys.exit(3) themselves (an error of that job like any other) - the status the process exits with, the one passed to the exit
+    # callback and the one in the DEATH notice are the recycle status when the quota was reached and the clean status otherwise
+    try:
+        nd = NDCode(code)
+        kinds = [(0, 1, 4)[nd.draw(0, 2)] for _ in range(NT)]
+        maxtasks = nd.draw(0, NT)
+        return _termination(kinds, False, maxtasks, 10 ** 9, 15, None, None)
+    except Prune:
+        return True
 
 
 def _term_args(code):
@@ -533,7 +552,8 @@ def h_after_fork(code: int) -> bool:
         full = nd.flag()
         names = sorted(bc.TERMSIGS_FULL if full else bc.TERMSIGS_DEFAULT)
         nums = [n for n in (bc.signum(s) for s in names) if n]
-        target = nums[nd.draw(0, min(len(nums), 16) - 1)]
+        cands = nums[:15] + ([bp.SIG_SOFT_TIMEOUT] if bp.SIG_SOFT_TIMEOUT and bp.SIG_SOFT_TIMEOUT not in nums[:15] else [])
+        target = cands[nd.draw(0, len(cands) - 1)]          # a termination signal or the soft-limit signal
         init_kind = nd.draw(0, 2)          # the initializer installs: nothing / its own handler / SIG_IGN
     except Prune:
         return True
@@ -575,14 +595,16 @@ def h_after_fork(code: int) -> bool:
         wk.after_fork()
     finally:
         bp.signal, bc.signal, bc.maybe_setsignal = saved
+    if bp.SIG_SOFT_TIMEOUT and table.get(bp.SIG_SOFT_TIMEOUT, real_signal.SIG_DFL) is not bp.soft_timeout_sighandler:
+        # whatever the initializer did to it (reset to the default action, own handler, ignored): the soft time limit is delivered by
+        # this signal, with the default action it would kill the worker instead of raising inside the task
+        return fail('C06:soft-limit-handler-not-installed')
     for n in nums:
         h = table.get(n, real_signal.SIG_DFL)
+        if n == bp.SIG_SOFT_TIMEOUT:
+            continue
         if n == target and init_kind == 2:
             continue                      # an explicitly ignored signal is left ignored (reset_signals respects SIG_IGN)
-        if n == bp.SIG_SOFT_TIMEOUT:
-            if h is not bp.soft_timeout_sighandler:
-                return fail('C06:soft-limit-handler-not-installed')
-            continue
         if h is not bc._shutdown_cleanup:
             return fail('C08:termination-handler-not-installed' + (':user-initializer-handler-wins' if h is user_handler else ''))
     if not (inq._writer.closed and outq._reader.closed):
